@@ -128,8 +128,14 @@ func HarnessC06Add() {
 	}
 	m1 := c06Make(e1, "e1", n1)
 	m2 := c06Make(e2, "e2", n2)
-	s.Metrics[e1.name] = append(s.Metrics[e1.name], m1)
-	s.Metrics[e2.name] = append(s.Metrics[e2.name], m2)
+	if small && nondetRange("order", 0, 1) == 1 {
+		// the other program's metric was registered first
+		s.Metrics[e2.name] = append(s.Metrics[e2.name], m2)
+		s.Metrics[e1.name] = append(s.Metrics[e1.name], m1)
+	} else {
+		s.Metrics[e1.name] = append(s.Metrics[e1.name], m1)
+		s.Metrics[e2.name] = append(s.Metrics[e2.name], m2)
+	}
 	olds := []*Metric{m1, m2}
 	specs := []c06Spec{e1, e2}
 	snaps := []c06Snap{c06Snapshot(m1), c06Snapshot(m2)}
